@@ -247,6 +247,21 @@ CHECKS = {
         technique="TLA+ spec + TLC exhaustive enumeration, replay through the built CLI binary with independent read-back",
         design_ref="DESIGN.md section 5 C10",
     ),
+    "C11": dict(
+        level="model_checking",
+        text=("Segmenter.tla models the segment-start selection, the per-track sample intervals and the resegmenter loop (Impl) and TLC "
+              "checks that they tile 1..N for every track, sync spacing and target duration of the generator and that every start is a "
+              "sync sample; the generated progressive files (video with every sync set, optional audio in another timescale) x segment "
+              "durations and fragmented inputs (every split into fragments, one or two truns) x chunk durations are materialised; the "
+              "BUILT examples/segmenter (single-track, -m, -lazy), examples/resegmenter and examples/combine-segs binaries and "
+              "MediaSegment.Fragmentify run on them and every output is read by the harness's independent ISO reader: per track the "
+              "concatenated sample sequence must equal the input (count, bytes, durations, sync flag, composition offset, decode "
+              "time) and every segment of the video track must start with a sync sample."),
+        note=("Judged when a tool exits 0. Only the non-sync bit of the sample flags is compared (the tools derive the other bits). "
+              "combine-segs is run on inputs with fully explicit truns (its documented limitation)."),
+        technique="TLA+ spec + TLC exhaustive enumeration and design check, replay through the built example binaries with independent read-back",
+        design_ref="DESIGN.md section 5 C11",
+    ),
 }
 
 PENDING_REASON = "check not built yet in this revision (planned in DESIGN.md section 5); not claimed until its machinery exists"
